@@ -385,7 +385,7 @@ def http_relay(d0: int, d1: int, d2: int, s0: int, s1: int) -> bool:
                                 out_len=len(cs.out), want_len=len(R), pending=len(envkit.pending(h.work)))
                 return ok()
         return fail('connection not ended after upstream EOF and a drained client')
-    for j in range(12):
+    for j in range(len(R) + 12):          # (--max-sendbuf-size 2 hands over at most two bytes per iteration)
         if cs.out == R:
             break
         try:
